@@ -127,6 +127,14 @@ CHECKS.append({
     "technique": "Coq proof (lookup/anchoring model, name-map and slot idempotence, C09/C10 corollaries) + double-compilation fixpoint check on corpus and generated programs",
 })
 
+CHECKS.append({
+    "property_id": "C08",
+    "text": "Coq theorems: totality of every modelled component — the file driver with the #include nesting limit is structurally recursive (no fuel) and for every file map, cyclic or not, ends with a state or a diagnostic, never with exhaustion, and refines the C12 driver; macro expansion never runs out of fuel or hangs; plus the theorems of C10 (lexer progress, errors inside the file, checked integer accumulation), C13 (the evaluator never aborts on arithmetic in debug or release) and C15 (the name generator's search ends). For the unmodelled rest (parser, type checker, exporters, formatter) the inventory of abort sites per file and function is regenerated from the sources and must equal the reviewed table, and a search runs every case in a watchdog-supervised child process on an 8 MiB stack: character and token soups up to 4 KB, generated programs valid and with one mutation, short soups inside valid programs, nested constructs, and every repository input unmodified and mutated, across 5 target configurations x {all, named, no-pipeline} x layout validation on/off; every rejected input's diagnostic is rendered.",
+    "design_ref": "DESIGN.md §4 C08",
+    "note": "Partial: only the modelled components are proved total; for the rest the result is a pinned inventory plus a search (not a proof). Seven known findings (unimplemented template features, exponential parse of nested template arguments, unbounded bind-group index, u32 slot arithmetic, non-resource object globals).",
+    "technique": "Coq proof (totality of the modelled components: structural recursion / no-exhaustion theorems) + pinned abort-site inventory + watchdog-supervised search on the implementation",
+})
+
 _claimed = {c["property_id"] for c in CHECKS}
 NOT_APPLICABLE = [
     {"property_id": p, "reason": "not yet claimed: model/theorems under construction (see DESIGN.md build order); no check registered until it passes on the unchanged tree"}
